@@ -66,7 +66,7 @@ func appendBlockSafe(r *cm.HTMLRenderer, rb *cm.RootBlock) (out []byte, perr str
 var c10Filters = []string{"", "gfm", "all", "none", "set:script,b,p,em,a,/p,code"}
 
 func runC10(c *Ctx) {
-	c.Res.Rule = "trees: every root of corpus and seeded generated documents (incl. raw HTML, entities, images, reference links, code blocks with info strings, tight/loose and ordered lists, CR/CRLF, NUL, invalid UTF-8) plus synthetic trees outside the parser's range; configurations: SoftBreak x IgnoreRaw x FilterTag in {nil, GFM, always, never, name set} (all 30 on corpus documents, 4 random ones otherwise); AppendBlock's bytes are compared with the Lean Walk-based model (correspondence) and the Lean recursive specification (oracle); in-process: rendering twice gives the same bytes, tree and Source are unchanged, Render = AppendBlock per block joined by blank lines, reference definitions render to nothing; non-trivial = root with >= 4 nodes; distinct by (input, root index, configuration)"
+	c.Res.Rule = "trees: every root of corpus and seeded generated documents (incl. raw HTML, entities, images, reference links, code blocks with info strings, tight/loose and ordered lists, CR/CRLF, NUL, invalid UTF-8) plus synthetic trees outside the parser's range; configurations: SoftBreak x IgnoreRaw x FilterTag in {nil, GFM, always, never, two name sets incl. /name end-tag forms} (all 36 on corpus documents, 4 random ones otherwise), the same renderer value re-configured and reused across configurations; AppendBlock's bytes are compared with the Lean Walk-based model (correspondence) and the Lean recursive specification (oracle); in-process: rendering twice gives the same bytes, tree and Source are unchanged, Render = AppendBlock per block joined by blank lines, reference definitions render to nothing; non-trivial = root with >= 4 nodes; distinct by (input, root index, configuration)"
 	corr := &Batch{c: c}
 	orc := &OracleBatch{c: c}
 	one := func(idx int, fam string, doc []byte, all bool) {
@@ -89,6 +89,7 @@ func runC10(c *Ctx) {
 			before[i] = wireRoot(r)
 			srcs[i] = append([]byte(nil), r.Source...)
 		}
+		fresh := map[string][]byte{}
 		for _, cfg := range cfgs {
 			cfg := cfg
 			rd := &cm.HTMLRenderer{ReferenceMap: res.refs, SoftBreakBehavior: cfg.soft, IgnoreRaw: cfg.ignoreRaw, FilterTag: filterFunc(cfg.filter)}
@@ -99,6 +100,7 @@ func runC10(c *Ctx) {
 					continue
 				}
 				parts = append(parts, out)
+				fresh[fmt.Sprint(ri, cfg)] = out
 				nodes := countNodes(r.AsNode())
 				c.count(fmt.Sprint(ri, cfg, string(doc)), nodes >= 4)
 				if nodes >= 4 && len(doc) < 60 {
@@ -121,6 +123,22 @@ func runC10(c *Ctx) {
 			if whole, perr := render(res.roots, res.refs, cfg); perr == "" && len(parts) == len(res.roots) {
 				if !bytes.Equal(whole, bytes.Join(parts, []byte("\n\n"))) {
 					c.report("render-is-not-the-join-of-blocks", doc, fam, cfg.String(), nil, nil)
+				}
+			}
+		}
+		// ONE renderer value re-configured between calls (configurations in reverse order): the output is a function of
+		// the configuration at the time of the call, not of what the renderer was used for before
+		shared := &cm.HTMLRenderer{}
+		for k := len(cfgs) - 1; k >= 0; k-- {
+			cfg := cfgs[k]
+			shared.ReferenceMap, shared.SoftBreakBehavior, shared.IgnoreRaw, shared.FilterTag = res.refs, cfg.soft, cfg.ignoreRaw, filterFunc(cfg.filter)
+			for ri, r := range res.roots {
+				want, ok := fresh[fmt.Sprint(ri, cfg)]
+				if !ok {
+					continue
+				}
+				if out, perr := appendBlockSafe(shared, r); perr == "" && !bytes.Equal(out, want) {
+					c.report("render-depends-on-renderer-history", doc, fam, fmt.Sprintf("cfg %s root %d: reused renderer %q fresh renderer %q", cfg, ri, out, want), nil, nil)
 				}
 			}
 		}
@@ -154,7 +172,7 @@ func runC10(c *Ctx) {
 		}
 		one(i, fam, d, false)
 	}
-	// raw HTML heavy documents under all 30 configurations (several upper/mixed-case tags per block, inline and in HTML blocks)
+	// raw HTML heavy documents under all 36 configurations (several upper/mixed-case tags per block, inline and in HTML blocks)
 	rawFrag := []string{"<DIV>", "<XMP>", "<Xmp>", "</XMP>", "<PRE>", "<Kbd>", "<EM>", "<b>", "</b>", "<script>", "<Script>", "<a href=\"x\">", "<!-- c -->", "text", " ", "\n", "*e*", "`c`", "&amp;", "<TITLE>", "</Title>", "<img\nsrc=x>"}
 	for i := 0; i < c.N(1500, 40000); i++ {
 		rng := newRng(c.Seed, "c10-raw", i)
